@@ -10,9 +10,9 @@ cd $W || exit 2
 git checkout -q -- . && git clean -fdq -e SEED
 export PYTHONPATH=$W TF_CPP_MIN_LOG_LEVEL=3 AI_EDGE_QUANTIZER_VERIF= CUDA_VISIBLE_DEVICES=
 unset AI_EDGE_QUANTIZER_VERIF
-/venv/bin/python $S/demo.py > $S/demo_before.log 2>&1; r0=$?
+/venv/bin/python $W/SEED/demo.py > $S/demo_before.log 2>&1; r0=$?
 git apply $S/patch.diff || { echo "$id: patch does not apply"; exit 2; }
-/venv/bin/python $S/demo.py > $S/demo_after.log 2>&1; r1=$?
+/venv/bin/python $W/SEED/demo.py > $S/demo_after.log 2>&1; r1=$?
 t=$(/venv/bin/python -m pytest -q -p no:cacheprovider --timeout=900 --continue-on-collection-errors ai_edge_quantizer 2>&1 | tail -1)
 echo "$id: demo before=$r0 after=$r1 tests: $t"
 case "$t" in *"519 passed"*) ok=1;; *) ok=0;; esac
@@ -28,7 +28,7 @@ m['confirmed_by_main']={'demo_exit_without_patch':int(r0),'demo_exit_with_patch'
 json.dump(m,open(p,'w'),indent=1)
 PY
   echo "$id: KEPT as seeded/$dest"
+  cd /; git -C /repo worktree remove --force $W; rm -rf $S
 else
-  echo "$id: NOT confirmed"
+  echo "$id: NOT confirmed (worktree kept: $W, logs in $S)"; tail -5 $S/demo_before.log
 fi
-cd /; git -C /repo worktree remove --force $W; rm -rf $S
